@@ -142,7 +142,8 @@ func (f *Fixture) Universe() []KeyVal {
 			addInt(v)
 		}
 		for _, v := range []int64{127, 128, 129, 255, 256, 257, 511, 512, 513, 767, 768, 1023, 1024, 1025, 1279, 2048, 4097,
-			12, 123456, 1000000007, 1 << 40, 1234567890123456, 123456789012345678, 1234567890123456789, math.MaxInt64,
+			12, 123456, 1000000007, 1 << 40,
+			1<<31 - 1, 1 << 31, 1<<32 - 1, 1 << 32, 1<<32 + 1, 1 << 53, 1<<53 + 1, math.MaxInt64 - 1, // width boundaries of number parsing 1234567890123456, 123456789012345678, 1234567890123456789, math.MaxInt64,
 			-1, -2, -17, -1024, -1000000007} {
 			addInt(v)
 		}
